@@ -210,6 +210,38 @@ pub fn run_c10<C: NatCtx>(v: &mut Env<C>) {
     if v.small && p < big(23) {
         return; // indices must stay below q
     }
+    // ---- large committees (n up to 16, t up to 13): every share against an independent Horner evaluation
+    // over the integers mod q, reconstruction from the HIGHEST positions and from a random subset
+    for (nn, t) in if quick { vec![(12usize, 10usize), (16, 13)] } else { vec![(11, 11), (12, 10), (12, 12), (13, 11), (16, 13), (16, 9)] } {
+        if big(nn as u64) >= q {
+            continue;
+        }
+        let coeffs: Vec<BigUint> = (0..t).map(|k| if k == t - 1 { &q - 1u32 } else { v.rnd_exp() }).collect();
+        let xs: Vec<C::X> = coeffs.iter().map(C::x_raw).collect();
+        let mut shares = vec![];
+        for j in 0..nn {
+            let (xs2, ctx2) = (xs.clone(), ctx.clone());
+            let out = v.case("th_share", vec![nu(j as u64), nu(t as u64), vnats(&coeffs)], || Out::Ok(Val::Nat(C::x_val(&threshold::compute_peer_share(j, t, &xs2, &ctx2)))));
+            let pos = big(j as u64 + 1);
+            let want = coeffs.iter().rev().fold(big(0), |a, c| (a * &pos + c) % &q);
+            v.h.check(out == Out::Ok(n(&want)), || format!("the share of trustee {} (n={}, t={}) is {:?}, the dealer polynomial {:x?} evaluates to {:x} at {} on {}", j + 1, nn, t, out, coeffs, want, j + 1, tok));
+            shares.push(match out { Out::Ok(Val::Nat(x)) => x, _ => want });
+        }
+        let mut rnd_set: Vec<usize> = (1..=nn).collect();
+        for i in (1..nn).rev() {
+            let j = v.h.rng.below_u(i as u64 + 1) as usize;
+            rnd_set.swap(i, j);
+        }
+        rnd_set.truncate(t);
+        for present in [((nn - t + 1)..=nn).collect::<Vec<usize>>(), rnd_set] {
+            let mut acc = big(0);
+            for &i in &present {
+                let lam = C::x_val(&threshold::lagrange(i, &present, &ctx));
+                acc = (acc + lam * &shares[i - 1]) % &q;
+            }
+            v.h.check(acc == coeffs[0].clone() % &q, || format!("trustees {:?} of n={} (t={}) do not reconstruct the dealer's secret on {}", present, nn, t, tok));
+        }
+    }
     let ns: Vec<usize> = if v.small { if quick { vec![2, 4, 6] } else { vec![2, 3, 5, 8, 10] } } else if quick { vec![3] } else { vec![3, 6] };
     for nn in ns {
         if big(nn as u64) >= q {
